@@ -89,6 +89,27 @@ func singleStore(a *ssa.Alloc) ssa.Value {
 		}
 	}
 	if n == 1 {
+		// the single store must precede every use of the cell on every path from its allocation (otherwise a use can see the
+		// zero value, or - for a cell declared outside a loop and assigned conditionally inside - a value of an earlier iteration)
+		var st ssa.Instruction
+		for _, r := range *refs {
+			if s2, ok := r.(*ssa.Store); ok && s2.Addr == ssa.Value(a) {
+				st = s2
+			}
+		}
+		for _, r := range *refs {
+			if r == st {
+				continue
+			}
+			switch r.(type) {
+			case *ssa.UnOp, *ssa.MakeClosure, *ssa.Slice, *ssa.FieldAddr, *ssa.IndexAddr:
+				use := r
+				if x, _ := Cut(CutQuery{From: After(a), Target: func(i ssa.Instruction) bool { return i == use },
+					AcceptInstr: func(i ssa.Instruction) bool { return i == st }}); x != nil {
+					return nil
+				}
+			}
+		}
 		return val
 	}
 	return nil
